@@ -223,6 +223,92 @@ theorem scan_pruned_equiv (O : KeyOrder K) (holds) (coh : Coherent O holds) (env
         simp [pruner_sound O holds coh env p e hb o.1 o.2.1 k this.1 this.2 hev]
       simp [hnone, ih hrest]
 
+/-- **delete_pruned_equiv**: predicate delete.  The deleter rewrites every object the pruner
+    keeps with the values for which the predicate is not true and leaves pruned objects
+    untouched; what remains is exactly "everything minus the values the predicate is true of",
+    i.e. pruning never makes a predicate delete miss a value. -/
+theorem delete_pruned_equiv (O : KeyOrder K) (holds) (coh : Coherent O holds) (env : Nat → Bool)
+    (p : Pred K) (e : PExpr K) (hb : build p = some e)
+    (objs : List (K × K × List K))
+    (hwf : ∀ o ∈ objs, ∀ k ∈ o.2.2, O.le o.1 k ∧ O.le k o.2.1) :
+    (objs.flatMap fun o =>
+        if e.eval O o.1 o.2.1 then o.2.2 else o.2.2.filter fun k => !(p.eval holds env k)) =
+    (objs.flatMap fun o => o.2.2.filter fun k => !(p.eval holds env k)) := by
+  induction objs with
+  | nil => rfl
+  | cons o rest ih =>
+    have hrest : ∀ o ∈ rest, ∀ k ∈ o.2.2, O.le o.1 k ∧ O.le k o.2.1 :=
+      fun o' ho' => hwf o' (List.mem_cons_of_mem _ ho')
+    simp only [List.flatMap_cons]
+    rw [ih hrest]
+    cases hev : e.eval O o.1 o.2.1
+    · simp
+    · have hall : o.2.2.filter (fun k => !(p.eval holds env k)) = o.2.2 := by
+        rw [List.filter_eq_self]
+        intro k hk
+        have := hwf o (List.mem_cons_self) k hk
+        simp [pruner_sound O holds coh env p e hb o.1 o.2.1 k this.1 this.2 hev]
+      simp [hall]
+
+/-! ### Object and seek-entry bounds really bound their keys -/
+
+/-- Obligation on the regenerated writer facts: Min is taken from the first value only, Max
+    from every value, and both Close and flushSeekIndex swap them for descending pools. -/
+theorem writer_bound_facts : minOnFirstOnly = true ∧ maxAlways = true ∧ descSwapped = true := by
+  decide
+
+private theorem le_refl' (O : KeyOrder K) (a : K) : O.le a a := by
+  unfold KeyOrder.le
+  have h := O.swap a a
+  cases hc : O.cmp a a <;> simp_all [Ordering.swap]
+
+private theorem le_last (R : K → K → Prop) (hrefl : ∀ a, R a a) :
+    ∀ (l : List K) (hne : l ≠ []), l.Pairwise R → ∀ x ∈ l, R x (l.getLast hne)
+  | [a], _, _, x, hx => by
+    have : x = a := by simpa using hx
+    subst this; simpa using hrefl x
+  | a :: b :: rest, _, hp, x, hx => by
+    rw [List.getLast_cons (by simp)]
+    rcases List.mem_cons.1 hx with rfl | hx'
+    · have hab := (List.pairwise_cons.1 hp).1
+      exact hab _ (List.getLast_mem _)
+    · exact le_last R hrefl (b :: rest) (by simp) (List.pairwise_cons.1 hp).2 x hx'
+
+/-- **object_bounds_sound**: for values written in pool order (ascending: non-decreasing keys;
+    descending: non-increasing keys) the (min, max) the writer stores for an object — and, by
+    the same code, for every seek-index entry — bound every key written:
+    `min ≤ k ≤ max` in the ascending sense, whatever the pool order.  This discharges, for the
+    writer model, the hypothesis `hwf` of `scan_pruned_equiv` / `delete_pruned_equiv` and the
+    range hypotheses of `seek_sound`. -/
+theorem object_bounds_sound (O : KeyOrder K) (desc : Bool) (keys : List K)
+    (hsorted : if desc then keys.Pairwise (fun a b => O.le b a) else keys.Pairwise (fun a b => O.le a b))
+    (lo hi : K) (hb : writerBounds desc keys = some (lo, hi)) :
+    ∀ k ∈ keys, O.le lo k ∧ O.le k hi := by
+  obtain ⟨f1, f2, f3⟩ := writer_bound_facts
+  cases keys with
+  | nil => simp [writerBounds] at hb
+  | cons a rest =>
+    simp only [writerBounds, f1, f2, f3, Bool.and_self, if_true] at hb
+    intro k hk
+    cases desc with
+    | false =>
+      simp only [Bool.false_eq_true, if_false, Option.some.injEq, Prod.mk.injEq] at hb hsorted
+      obtain ⟨rfl, rfl⟩ := hb
+      refine ⟨?_, le_last _ (le_refl' O) (a :: rest) (by simp) hsorted k hk⟩
+      rcases List.mem_cons.1 hk with rfl | hk'
+      · exact le_refl' O _
+      · exact (List.pairwise_cons.1 hsorted).1 k hk'
+    | true =>
+      simp only [if_true, Option.some.injEq, Prod.mk.injEq] at hb hsorted
+      obtain ⟨rfl, rfl⟩ := hb
+      refine ⟨le_last (fun a b => O.le b a) (fun a => le_refl' O a) (a :: rest) (by simp) hsorted k hk, ?_⟩
+      rcases List.mem_cons.1 hk with rfl | hk'
+      · exact le_refl' O _
+      · exact (List.pairwise_cons.1 hsorted).1 k hk'
+
+/-- Non-vacuity: a descending object holding null, 9, 5 is recorded as [5, null]. -/
+example : writerBounds true [none, some (9 : Int), some 5] = some (some 5, none) := by decide
+
 /-! ### Non-vacuity: a concrete key order satisfying the hypotheses. -/
 
 def optIntOrder : KeyOrder (Option Int) where
